@@ -352,6 +352,24 @@ func runCheck(prop string, ps *PropSpec, tier, repo string, seed int, verbose bo
 		if con.NoOvf {
 			fr.Mode = "mathematical integers; machine arithmetic treated as mathematical (no overflow obligations)"
 		}
+		// vacuity: a function none of whose returns can be reached satisfies every postcondition for free
+		// (a guard turned into "always panic", a contradictory invariant): that is a failure, not a proof
+		retCovers, retVacuous := 0, 0
+		var firstRet *Obl
+		for _, o := range vc.obls {
+			if o.Cover && strings.Contains(o.Name, "#cover.ret") {
+				retCovers++
+				if firstRet == nil {
+					firstRet = o
+				}
+				if o.Status == "vacuous" {
+					retVacuous++
+				}
+			}
+		}
+		if retCovers > 0 && retVacuous == retCovers {
+			failures = append(failures, failure{firstRet, vc, "vacuity: no return of " + short + " is reachable, its postconditions hold for free"})
+		}
 		for _, o := range vc.obls {
 			solverMs += o.Ms
 			if o.Cover {
